@@ -23,7 +23,8 @@
 //!           cn=,nd=,slow=<requests abandoned after 3 s>,op=<connections accepted>,xck=<frames where the handler's
 //!           record and mocknode's disagree>
 //! other observations:  not-run <reason> (environment: no session, mock did not start, use_keyspace exceeded the
-//! harness cap - nothing is judged; counted and capped by checks/c20.py);  invalid-accepted <name>
+//! harness cap, or the mock wrote two SetKeyspace answers of one connection in another order than the USEs arrived -
+//! nothing is judged; counted and capped by checks/c20.py);  invalid-accepted <name>
 use crate::{dec_name, enc_name};
 use scylla::client::PoolSize;
 use scylla::client::session::Session;
@@ -84,7 +85,6 @@ struct Shared {
     delayed: AtomicU64,
     early: AtomicU64,
     xck: AtomicU64,
-    reordered: AtomicU64,
 }
 
 const PREP_TEXT: &str = "SELECT v FROM t WHERE p = ?";
@@ -133,7 +133,14 @@ fn handler(sh: Arc<Shared>) -> Handler {
             // (one TCP stream, a server that handles them in order). mocknode serves later frames while a
             // delayed reply sleeps, so a USE arriving behind a still-delayed SetKeyspace answer is delayed
             // behind it as well: answers are written in arrival order.
-            let behind = a.pending.iter().map(|p| p.0).max().map(|t| t.saturating_duration_since(now).as_millis() as u64 + 2);
+            let mut behind = a.pending.iter().map(|p| p.0).max().map(|t| t.saturating_duration_since(now).as_millis() as u64 + 2);
+            // the handler's clock says every delayed answer is due, but mocknode has not written the last
+            // one yet (its record lags ours): an immediate answer could overtake it - delay this one a little.
+            // (Only a mitigation: whether answers WERE written out of order is decided after the scenario
+            // from the mock's trace, see `use_answers_reordered`.)
+            if behind.is_none() && a.cur != ctx.keyspace && a.cur.is_some() && a.last_applied.is_some() {
+                behind = Some(5);
+            }
             return match *fault {
                 UseFault::None => match behind {
                     None => {
@@ -195,12 +202,6 @@ fn handler(sh: Arc<Shared>) -> Handler {
                 sh.early.fetch_add(1, Ordering::Relaxed);
             } else if a.cur != ctx.keyspace {
                 sh.xck.fetch_add(1, Ordering::Relaxed);
-                // still different two seconds after the last delayed answer was due: the mock wrote the
-                // answers of this connection in another order than the USEs arrived (outside the model's
-                // declared assumption) - the scenario is not judged
-                if a.last_applied.is_none_or(|t| now.saturating_duration_since(t) > Duration::from_secs(2)) {
-                    sh.reordered.fetch_add(1, Ordering::Relaxed);
-                }
                 if std::env::var("C20_DEBUG").is_ok() {
                     eprintln!("XCK conn {} mine {:?} mock {:?} now {:?} hist {:?}", ctx.conn_id, a.cur, ctx.keyspace, now, a.hist);
                 }
@@ -470,6 +471,46 @@ impl Ctx {
     }
 }
 
+/// The model assumes that the USE statements of one connection are answered in arrival order; mocknode serves
+/// later frames while a delayed answer sleeps. Decided from the mock's own trace (frames are logged in the order
+/// they are read / written, under the trace lock - no clock involved): true iff on some connection two USE
+/// statements that were both answered with a completely written RESULT/SetKeyspace were answered in another
+/// order than they arrived. Such a scenario is outside the model's declared assumption and is not judged.
+fn use_answers_reordered(trace: &[TraceEvent]) -> bool {
+    // per connection: outstanding USEs (stream, arrival number), arrival number of the last USE acknowledged
+    let mut outstanding: HashMap<u64, Vec<(i16, u64)>> = HashMap::new();
+    let mut last_acked: HashMap<u64, u64> = HashMap::new();
+    let mut arrival = 0u64;
+    for e in trace {
+        match &e.ev {
+            Ev::In { stream, opcode, body, .. } if *opcode == op::QUERY => {
+                if let Ok(q) = wire::decode_query(body) {
+                    if q.text.len() >= 4 && q.text[..4].eq_ignore_ascii_case("USE ") {
+                        arrival += 1;
+                        outstanding.entry(e.conn_id).or_default().push((*stream, arrival));
+                    }
+                }
+            }
+            Ev::Out { stream, opcode, body, written, .. } => {
+                let list = outstanding.entry(e.conn_id).or_default();
+                if let Some(i) = list.iter().position(|(s, _)| s == stream) {
+                    let (_, arr) = list.remove(i);
+                    let set_keyspace = *opcode == op::RESULT && body.len() >= 4 && body[..4] == [0, 0, 0, 3] && *written == 9 + body.len();
+                    if set_keyspace {
+                        let last = last_acked.entry(e.conn_id).or_insert(0);
+                        if arr < *last {
+                            return true;
+                        }
+                        *last = arr;
+                    }
+                }
+            }
+            _ => {}
+        }
+    }
+    false
+}
+
 /// a shard count different from the scenario's initial one (0 = node without sharding information)
 fn reshard_to(r: &mut Rng, shards: u16) -> u16 {
     let c: Vec<u16> = [1u16, 2, 3, 4].into_iter().filter(|x| *x != shards).collect();
@@ -498,7 +539,7 @@ pub async fn run_scenario(sseed: u64, thorough: bool) -> String {
     }
     let cluster = match MockCluster::start(spec).await {
         Ok(c) => Arc::new(c),
-        Err(_) => return "not-run mock-start".into(),
+        Err(e) => return format!("not-run mock-start-{:?}", e.kind()).replace(' ', "_"),
     };
     let sh = Arc::new(Shared {
         events: Mutex::new(Vec::new()),
@@ -512,7 +553,6 @@ pub async fn run_scenario(sseed: u64, thorough: bool) -> String {
         delayed: AtomicU64::new(0),
         early: AtomicU64::new(0),
         xck: AtomicU64::new(0),
-        reordered: AtomicU64::new(0),
     });
     cluster.on_prepare(
         PREP_TEXT,
@@ -530,7 +570,10 @@ pub async fn run_scenario(sseed: u64, thorough: bool) -> String {
         .known_node_addr(cluster.contact_point(0))
         // own loopback source address: own ephemeral port space (no EADDRINUSE from TIME-WAIT on 127.0.0.1)
         .local_ip_address(Some(cluster.client_ip()))
-        .connection_timeout(Duration::from_millis(400))
+        // handshake timeout AND the pool-level USE timeout. 2 s (not the 400 ms of earlier versions): under
+        // heavy load a shorter value made clean calls time out and pools miss their refill, which thinned the
+        // strict / late coverage below the floors although nothing was wrong. A `Silent` fault costs 2 s.
+        .connection_timeout(Duration::from_millis(2000))
         .pool_size(pool);
     if r.chance(1, 4) {
         b = b.disallow_shard_aware_port(true);
@@ -691,7 +734,9 @@ pub async fn run_scenario(sseed: u64, thorough: bool) -> String {
         }
     }
     let conns = cluster.connections(None).len();
-    let opened = cluster.trace_snapshot().iter().filter(|e| matches!(e.ev, Ev::Open { .. })).count();
+    let mock_trace = cluster.trace_snapshot();
+    let opened = mock_trace.iter().filter(|e| matches!(e.ev, Ev::Open { .. })).count();
+    let reordered = use_answers_reordered(&mock_trace);
     let hang = cx.hang.lock().unwrap().clone();
     if hang.is_some() && std::env::var("C20_DEBUG").is_ok() {
         eprintln!("=== scenario {:x}: {:?}", sseed, hang);
@@ -724,7 +769,7 @@ pub async fn run_scenario(sseed: u64, thorough: bool) -> String {
     if let Some(h) = hang {
         return format!("not-run {}", h.replace(' ', "_"));
     }
-    if sh.reordered.load(Ordering::Relaxed) > 0 {
+    if reordered {
         return "not-run mock-reordered-use".into();
     }
     // strict frames: frames of requests that STARTED while a keyspace was established by a call that
